@@ -210,6 +210,12 @@ Module Ex.
       [Some (Some (lit "75")); Some (Some (lit "99")); Some (Some (lit "75"))]
     /\ fst (run_c text idc isn f e rt [sf; sf_other; sf] (mkCaches [] [])) = run text idc isn f e rt [sf; sf_other; sf].
   Proof. split; vm_compute; reflexivity. Qed.
+  (* the isolation hypothesis is satisfiable non-trivially: the sibling directory `other` (and its own 99 / tsql) is not among
+     the places sf's config is read from, so any change there leaves sf's config alone *)
+  Example ex_sibling_not_relevant :
+    existsb (path_eqb other) (relevant text f e (r_extra text rt) (fst sf)) = false /\
+    existsb (path_eqb sub) (relevant text f e (r_extra text rt) (fst sf)) = true.
+  Proof. split; vm_compute; reflexivity. Qed.
   Example ex_spec_agrees :
     spec_kind text idc f e rt sf false (map lit ["core"; "max_line_length"]%string) = Some (Some (lit "75")) /\
     spec_kind text idc f e rt sf_other false (map lit ["core"; "dialect"]%string) = Some (Some (lit "tsql")).
